@@ -205,7 +205,32 @@ var SEQ = (function(){
     for (var i = 0; i < ops.length; i++){ var r = attempt(P, ops[i], {}, []); if (r !== "T:TypeError") bad.push(ops[i]+"="+r); }
     return bad.length ? "NOT-THROWN "+bad.join(",") : "OK "+ops.length;
   }
-  return {run: run, revoked: revoked, jsHandler: jsHandler, TRAPS: TRAPS};
+  // an outer proxy whose ownKeys trap LIES about the keys of T (wrapped in inner forwarding layers); every other trap absent
+  function keylie(T, inner, mkProxy, mkOuter, variant, ne, api){
+    if (ne) Reflect.preventExtensions(T);
+    var log = [], P = T, i;
+    for (i = 1; i <= inner; i++) P = mkProxy(P, i, log);
+    var ks = Reflect.ownKeys(T);
+    var tk = ks.map(function(k){ return ck(k)+":"+(Reflect.getOwnPropertyDescriptor(T, k).configurable ? 1 : 0); });
+    var lie = ks.slice(), m;
+    if ((m = /^omit([0-9]+)$/.exec(variant))){ if (+m[1] >= ks.length) return "NA"; lie.splice(+m[1], 1); }
+    else if (variant === "perm") lie.reverse();
+    else if (variant === "dup"){ if (!ks.length) return "NA"; lie.push(ks[0]); }
+    else if (variant === "extra") lie.push("zz9");
+    else if (variant === "empty") lie = [];
+    else if (variant !== "honest") throw new Error("bad variant "+variant);
+    var outer = mkOuter(P, lie.slice());
+    var r;
+    try {
+      var got = api === "n" ? Object.getOwnPropertyNames(outer) : api === "s" ? Object.getOwnPropertySymbols(outer)
+              : api === "k" ? Object.keys(outer) : Reflect.ownKeys(outer);
+      r = "k:"+got.map(ck).join(",");
+    } catch (e) { r = "T:"+(e && e.constructor && e.constructor.name || "?"); }
+    return r+"#ext="+(Reflect.isExtensible(T)?1:0)+"#"+tk.join(",")+"#"+lie.map(ck).join(",");
+  }
+  return {run: run, revoked: revoked, jsHandler: jsHandler, TRAPS: TRAPS, keylie: keylie, mkKind: mkKind,
+          mkMargs: function(){ return SEQ_SLOPPY_ARGS(1,2); },
+          jsOuter: function(t, lie){ return new Proxy(t, {ownKeys: function(){ return lie; }}); }};
 })();
 function SEQ_SLOPPY_ARGS(a,b){ return arguments; }
 `
@@ -214,6 +239,10 @@ type seqEnv struct {
 	vm      *goja.Runtime
 	run     goja.Callable
 	revoked goja.Callable
+	keylie  goja.Callable
+	mkKind  goja.Callable
+	mkMargs goja.Callable
+	jsOuter goja.Callable
 	jsH     goja.Callable
 	reflect map[string]goja.Callable
 }
@@ -233,7 +262,8 @@ func newSeqEnv() *seqEnv {
 		}
 		return f
 	}
-	e := &seqEnv{vm: vm, run: get(s, "run"), revoked: get(s, "revoked"), jsH: get(s, "jsHandler"), reflect: map[string]goja.Callable{}}
+	e := &seqEnv{vm: vm, run: get(s, "run"), revoked: get(s, "revoked"), jsH: get(s, "jsHandler"), reflect: map[string]goja.Callable{},
+		keylie: get(s, "keylie"), mkKind: get(s, "mkKind"), mkMargs: get(s, "mkMargs"), jsOuter: get(s, "jsOuter")}
 	r := vm.Get("Reflect").ToObject(vm)
 	for _, t := range []string{"getPrototypeOf", "setPrototypeOf", "isExtensible", "preventExtensions", "getOwnPropertyDescriptor",
 		"defineProperty", "has", "get", "set", "deleteProperty", "ownKeys", "apply", "construct"} {
@@ -430,6 +460,13 @@ func runSeq(f []string) string {
 		}
 		return v.String()
 	}
+	if f[0] == "keylie" {
+		// Q keylie <kind> <innerLayers> <J|G> <variant>,<ne 0|1>,<api r|n|s|k>
+		if len(f) < 5 {
+			return "BADLINE"
+		}
+		return e.runKeylie(f[1], f[2], f[3], strings.Split(f[4], ","))
+	}
 	kind, layers, hk := f[0], f[1], f[2]
 	ops := strings.Split(f[3], ";")
 	mk := vm.ToValue(func(call goja.FunctionCall) goja.Value {
@@ -455,6 +492,82 @@ func runSeq(f []string) string {
 		n = n*10 + int(c-'0')
 	}
 	v, err := e.run(goja.Undefined(), vm.ToValue(kind), vm.ToValue(n), mk, vm.ToValue(ops))
+	if err != nil {
+		return "ERR:" + common.OneLine(err.Error())
+	}
+	return v.String()
+}
+
+type goStruct struct {
+	A int
+	B string
+}
+
+// targets that only the Go API can create
+func (e *seqEnv) goTarget(kind string) goja.Value {
+	switch kind {
+	case "gomap":
+		return e.vm.ToValue(map[string]interface{}{"a": 1, "b": "x"})
+	case "gostruct":
+		return e.vm.ToValue(&goStruct{A: 1, B: "x"})
+	case "goslice":
+		return e.vm.ToValue([]interface{}{1, 2})
+	}
+	return nil
+}
+
+func (e *seqEnv) runKeylie(kind, inner, hk string, arg []string) string {
+	vm := e.vm
+	if len(arg) != 3 {
+		return "BADLINE"
+	}
+	var target goja.Value
+	var err error
+	if strings.HasPrefix(kind, "go") {
+		target = e.goTarget(kind)
+		if target == nil {
+			return "BADKIND"
+		}
+	} else if kind == "margs" {
+		target, err = e.mkMargs(goja.Undefined())
+	} else {
+		target, err = e.mkKind(goja.Undefined(), vm.ToValue(kind))
+	}
+	if err != nil {
+		return "ERR:" + common.OneLine(err.Error())
+	}
+	mkProxy := vm.ToValue(func(call goja.FunctionCall) goja.Value {
+		t := call.Argument(0).ToObject(vm)
+		if hk == "G" {
+			return vm.ToValue(vm.NewProxy(t, e.goHandler(call.Argument(1).String(), call.Argument(2).ToObject(vm))))
+		}
+		h, err := e.jsH(goja.Undefined(), call.Argument(1), call.Argument(2))
+		if err != nil {
+			panic(err)
+		}
+		p, err := vm.New(vm.Get("Proxy"), t, h)
+		if err != nil {
+			panic(err)
+		}
+		return p
+	})
+	mkOuter := vm.ToValue(func(call goja.FunctionCall) goja.Value {
+		t := call.Argument(0).ToObject(vm)
+		lie := call.Argument(1).ToObject(vm)
+		if hk == "G" {
+			return vm.ToValue(vm.NewProxy(t, &goja.ProxyTrapConfig{OwnKeys: func(*goja.Object) *goja.Object { return lie }}))
+		}
+		p, err := e.jsOuter(goja.Undefined(), t, lie)
+		if err != nil {
+			panic(err)
+		}
+		return p
+	})
+	n := 0
+	for _, c := range inner {
+		n = n*10 + int(c-'0')
+	}
+	v, err := e.keylie(goja.Undefined(), target, vm.ToValue(n), mkProxy, mkOuter, vm.ToValue(arg[0]), vm.ToValue(arg[1] == "1"), vm.ToValue(arg[2]))
 	if err != nil {
 		return "ERR:" + common.OneLine(err.Error())
 	}
